@@ -483,17 +483,24 @@ theorem fqLines_noLF (p : FqContent) (hh : HeadOk p.1) (hs : FieldOk p.2.1) (hq 
     · exact hh.1
     · simp
 
+theorem enc4_length (p : FqContent) (t : Term) :
+    (enc4 p t).length = (AT :: p.1 ++ t.cr).length + (p.2.1 ++ t.cr).length +
+      (PLUS :: (if p.2.2.2 then p.1 else []) ++ t.cr).length + (p.2.2.1 ++ t.cr).length + 4 := by
+  have := congrArg List.length (enc4_eq p t [])
+  simp only [List.append_nil, List.length_append, List.length_cons, List.length_nil] at this ⊢
+  omega
+
 /-- one terminated record in front of more text -/
 theorem fqGo_step (p : FqContent) (hh : HeadOk p.1) (hs : FieldOk p.2.1) (hq : FieldOk p.2.2.1)
     (hl : p.2.1.length = p.2.2.1.length) (t : Term) (e : List UInt8) (byte line : Nat) :
-    ∃ byte', fqGo false (splitLF (enc4 p t ++ e)) byte line =
+    fqGo false (splitLF (enc4 p t ++ e)) byte line =
       .record { byte := byte, line := line, head := p.1, seq := p.2.1, qual := p.2.2.1 } ::
-        fqGo false (splitLF e) byte' (line + 4) := by
+        fqGo false (splitLF e) (byte + (enc4 p t).length) (line + 4) := by
   obtain ⟨n1, n2, n3, n4⟩ := fqLines_noLF p hh hs hq
   rw [enc4_eq, splitLF_append _ _ (lf_notin_line n1 t), splitLF_append _ _ (lf_notin_line n2 t),
     splitLF_append _ _ (lf_notin_line n3 t), splitLF_append _ _ (lf_notin_line n4 t),
-    Fastq.fqGo_four _ _ _ _ _ _ (splitLF_ne_nil e), fqGroup_rec _ _ _ _ hh hs hq hl]
-  exact ⟨_, rfl⟩
+    Fastq.fqGo_four _ _ _ _ _ _ (splitLF_ne_nil e), fqGroup_rec _ _ _ _ hh hs hq hl, enc4_length]
+  simp only [Nat.add_assoc]
 
 /-- the last record without its terminator -/
 theorem fqGo_last (p : FqContent) (hh : HeadOk p.1) (hs : FieldOk p.2.1) (hq : FieldOk p.2.2.1)
@@ -521,8 +528,8 @@ theorem fqGo_encoded (recs : List FqContent) (hok : FqOk recs) (t : Term) (final
   | cons p recs ih =>
     obtain ⟨hh, hs, hq, hl⟩ := hok p (by simp)
     by_cases hc : recs ≠ [] ∨ final = true
-    · obtain ⟨b', e1⟩ := fqGo_step p hh hs hq hl t (encodeFastq recs t final ++ e) byte line
-      obtain ⟨rs, e2, e3⟩ := ih (fun x hx => hok x (by simp [hx])) b' (line + 4)
+    · have e1 := fqGo_step p hh hs hq hl t (encodeFastq recs t final ++ e) byte line
+      obtain ⟨rs, e2, e3⟩ := ih (fun x hx => hok x (by simp [hx])) (byte + (enc4 p t).length) (line + 4)
       refine ⟨{ byte := byte, line := line, head := p.1, seq := p.2.1, qual := p.2.2.1 } :: rs, ?_, ?_⟩
       · rw [encodeFastq_cons p recs t final hc, List.append_assoc, e1, e2]; rfl
       · rw [List.map_cons, e3]; rfl
